@@ -230,6 +230,8 @@ def gen_put_world(rng, profile="mixed"):
     if profile in ("collide", "mixed") and rng.random() < (0.3 if profile == "collide" else 0.06):
         # a base name of 246-255 bytes: "<name>.trashinfo" does not fit, trash-put shortens the name
         long_name = rng.choice([b"L", b"n"]) * rng.choice([246, 250, 255])
+        if rng.random() < 0.35:
+            long_name = rng.choice([b"\xff", b"\xc3", b"caf\xe9"]) + long_name[4:]       # ... and no valid UTF-8 either
         names[0] = long_name
     nargs = rng.choice([1, 1, 1, 2, 2, 3, 4])
     if profile == "single":
@@ -277,7 +279,7 @@ def gen_put_world(rng, profile="mixed"):
             s = s.rstrip(b"/") + b"/" * rng.randint(0, 3)
         args.append(s)
         meta.append({"class": "entry", "kind": kind, "spelling": sp, "entry": d + b"/" + name})
-    if profile == "links" and len(vols) > 1 and rng.random() < 0.12:
+    if ((profile == "links" and rng.random() < 0.12) or (profile == "mixed" and rng.random() < 0.05)) and len(vols) > 1:
         # an entry reached through a link to a directory on another volume, then that link itself with trailing slashes
         # (whatever one argument taught the run about a directory, the next one names the link, not where it leads)
         tv = rng.choice(vols[1:])
@@ -294,6 +296,22 @@ def gen_put_world(rng, profile="mixed"):
             args = [a1, a2] + args[:2]
             meta = [{"class": "entry", "kind": "file", "spelling": "via-link-parent", "entry": tgt + b"/inside"},
                     {"class": "entry", "kind": "link-dir", "spelling": "abs", "entry": lk}] + meta[:2]
+    if profile == "links" and rng.random() < 0.1 and home + b"/work/trash-shortcut" not in w.nodes:
+        # a convenience link to a trash directory of this very run, or to something in it: the link is an entry like any
+        # other, where it leads does not matter
+        ht = (env.get("XDG_DATA_HOME") or home + b"/.local/share") + b"/Trash"
+        if ht.startswith(R + b"/") and env.get("HOME"):
+            tgt = rng.choice([ht, ht + b"/files/old-payload", ht + b"/files"])
+            if tgt.endswith(b"old-payload") and ht not in w.nodes:
+                w.dir(ht, 0o700)
+                w.dir(ht + b"/files", 0o700)
+                w.dir(ht + b"/info", 0o700)
+                w.file(ht + b"/files/old-payload", b"trashed long ago")
+                w.file(ht + b"/info/old-payload.trashinfo", b"[Trash Info]\nPath=/old\nDeletionDate=2020-01-01T00:00:00\n", 0o600)
+            w.link(home + b"/work/trash-shortcut", tgt)
+            sl = rng.choice([b"", b"", b"/"]) if (tgt in w.nodes and w.nodes[tgt]["k"] == "d") else b""
+            args = [home + b"/work/trash-shortcut" + sl] + args[:1]
+            meta = [{"class": "entry", "kind": "link-dir", "spelling": "abs", "entry": home + b"/work/trash-shortcut"}] + meta[:1]
     if profile == "links" and rng.random() < 0.1 and home + b"/work/bld" not in w.nodes and home + b"/work/latest" not in w.nodes:
         # a directory, then a link that lives OUTSIDE it and points INTO it (`trash-put build latest`): the second argument
         # is the link, wherever it leads and whatever became of that
@@ -426,7 +444,7 @@ DATES = ["2001-01-01 00:00:00", "2001-01-01_00:00:00", "2001-W01-1T00:00:00", "2
          "2001-01-01T12:00:00+0100", "2001-01-01T12:00:00Z", "2001-01-01T12:00:00-05:00", "2001-01-01T12:00:00 UTC"]
 BAD_DATES = ["2001-01-01 00:00:00", "2001-01-01_00:00:00", "2001-W01-1T00:00:00", "20010101T000000.000", "2001-01-01T00:00+01", "2024-02-30T00:00:00", "yesterday", "", "2024-03-01", "2024-03-01T12:00:60", "2024-03-01T12:00:00 ", "2002-02-02T02:02:02+0000", "2002-02-02T02:02:02.000"]
 MALFORMED = ["non-trashinfo", "empty", "truncated", "binary", "non-utf8", "no-path", "no-date", "bad-date", "info-only",
-             "orphan", "long-orphan", "odd-stem", "info-is-dir", "info-dangling-link", "dup-keys-crlf", "double-suffix", "info-link-outside", "info-link-sibling", "info-link-loop", "info-link-through-file"]
+             "orphan", "long-orphan", "odd-stem", "info-is-dir", "info-dangling-link", "dup-keys-crlf", "double-suffix", "info-link-outside", "info-link-sibling", "info-link-loop", "info-link-through-file", "info-only-compat-name"]
 ORIGIN_NAMES = [b"report.txt", b"a b", b"~", b"foo", b"foobar", b"foo.o", b"FOO", b"notes.trashinfo", b"notes\x0cdraft", b"notes\xe2\x80\xa8final", b"caf\xc3\xa9", b"x%y", b"new\nline", b"-dash", b"d1",
                 b"notes", b"\xff\xfe", b"q?", b"[b]", b"*star", b"...", b"....", b"cafe\xcc\x81"]
 
@@ -501,7 +519,7 @@ def add_good(rng, w, tdir, base, name, loc, date, sentinel, kinds):
     return rec
 
 
-def add_malformed(rng, w, tdir, kind, i, good_names=None):
+def add_malformed(rng, w, tdir, kind, i, good_names=None, base=None):
     n = b"m%d" % i
     info = tdir + b"/info/"
     if kind == "non-trashinfo":
@@ -516,8 +534,11 @@ def add_malformed(rng, w, tdir, kind, i, good_names=None):
         w.file(info + n + b".trashinfo", bytes(range(256)) * 2)
         w.file(tdir + b"/files/" + n, b"p")
     elif kind == "non-utf8":
-        w.file(info + n + b".trashinfo", b"[Trash Info]\nPath=" + rng.choice([b"/SBX/w/\xff\xfe-%d" % i, b"w/\xe9t\xe9-%d" % i, b"/SBX/w/caf\xe9%%20au%%20lait-%d" % i,
-                                                                         b"w/%%41\xff%%zz-%d" % i]) + b"\nDeletionDate=2024-03-01T12:00:00\n")
+        # (a relative Path only where it is relative to a volume inside the sandbox: in the home trash it would be relative to
+        #  the real root directory)
+        rel = b"w/" if base is not None else b"/SBX/w/"
+        w.file(info + n + b".trashinfo", b"[Trash Info]\nPath=" + rng.choice([b"/SBX/w/\xff\xfe-%d" % i, rel + b"\xe9t\xe9-%d" % i, b"/SBX/w/caf\xe9%%20au%%20lait-%d" % i,
+                                                                         rel + b"%%41\xff%%zz-%d" % i]) + b"\nDeletionDate=2024-03-01T12:00:00\n")
         w.file(tdir + b"/files/" + n, b"p")
     elif kind == "no-path":
         w.file(info + n + b".trashinfo", b"[Trash Info]\nDeletionDate=2020-01-01T00:00:00\n")
@@ -543,6 +564,9 @@ def add_malformed(rng, w, tdir, kind, i, good_names=None):
         w.file(tdir + b"/files/" + n, b"p")
     elif kind == "info-dangling-link":
         w.link(info + n + b".trashinfo", b"nowhere")
+    elif kind == "info-only-compat-name":
+        # an info file without payload whose name is U+2025 (two dot leader; its compatibility form is "..")
+        w.file(info + "\u2025".encode() + b".trashinfo", b"[Trash Info]\nPath=" + R + b"/w/gone%d\nDeletionDate=2020-01-01T00:00:00\n" % i)
     elif kind == "info-link-loop":
         w.link(info + n + b".trashinfo", rng.choice([n + b".trashinfo", info + n + b".trashinfo"]))      # a link to itself: ELOOP
     elif kind == "info-link-through-file":
@@ -682,7 +706,7 @@ def gen_trash_world(rng, cmd, profile="mixed", real_clock=None):
             #  C14 finding; for the commands that do not purge it is simply one more entry with the same location and date)
             kinds_ok = [k_ for k_ in MALFORMED if k_ != "info-link-sibling" or cmd in ("list", "restore")]
             add_malformed(rng, w, tdir, rng.choice(kinds_ok), 100 * len(entries) + j,
-                          good_names=[e["name"] for e in entries if e["tdir"] == tdir])
+                          good_names=[e["name"] for e in entries if e["tdir"] == tdir], base=base)
         for e in [e for e in entries if e["tdir"] == tdir]:
             for p_, n_ in list(w.nodes.items()):
                 if n_["k"] == "l" and p_.startswith(tdir + b"/info/") and n_["target"] == e["name"] + b".trashinfo" \
@@ -846,7 +870,7 @@ def gen_trash_world(rng, cmd, profile="mixed", real_clock=None):
                 opts["flags"] = rng.choice([[b"-i", b"-f"], [b"-if"], [b"--interactive", b"-f"], [b"-f", b"-i", b"-f"]])
     elif cmd == "rm":
         pats = [b"*", b"foo", b"foo*", b"*.o", b"F*", b"?oo", b"[fF]oo", b"/SBX/*", b"*/w/*", b"nomatch", b"a b", b"caf*", b"[!f]*", b"*\n*", b"d1",
-                b"*.txt", b"*r", b"*s", b"*[!o]", b"foo/", b"*/", b"d1//", b"~", b"~root", b"~/foo", b"~*"]
+                b"*.txt", b"*r", b"*s", b"*[!o]", b"gone*", b"*.trashinfo*", b"foo/", b"*/", b"d1//", b"~", b"~root", b"~/foo", b"~*"]
         if entries:
             e = rng.choice(entries)
             pats += [os.path.basename(e["loc"]), e["loc"], os.path.dirname(e["loc"]) + b"/*", e["loc"] + b"/", os.path.basename(e["loc"]) + b"/"]
@@ -902,7 +926,14 @@ def gen_fault_world(rng, where=None, force=None):
         w.dir(t + b"/files", 0o700)
         w.dir(t + b"/info", 0o700)
         w.file(t + b"/info/" + name + b".trashinfo", b"[Trash Info]\nPath=/x\nDeletionDate=2020-01-01T00:00:00\n", 0o600)
-        w.file(t + b"/files/" + name, b"older")
+        if rng.random() < 0.5:
+            w.file(t + b"/files/" + name, b"older")
+        else:
+            # ... a dead info file (no payload) at the first name, and at the next one a payload nobody has an info for
+            if rng.random() < 0.5:
+                w.file(t + b"/files/" + name + b"_1", b"orphan: must survive")
+            else:
+                w.file(t + b"/files/" + name + b"_1/precious", b"orphan directory: must survive")
     cwd = rng.choice([d, home])
     arg = rng.choice([d + b"/" + name, relpath(d + b"/" + name, cwd)])
     if (rng.random() < 0.35) if force is None else force:
